@@ -29,32 +29,19 @@ Definition core_fn (nm : string) : bool :=
   String.eqb nm "upper" || String.eqb nm "lower" || String.eqb nm "str" || String.eqb nm "int" ||
   String.eqb nm "float" || String.eqb nm "strlen" || String.eqb nm "is_int" || String.eqb nm "is_float".
 
-(* expressions that always evaluate to an int64 (never a float) *)
-Fixpoint int_shaped (e : expr) : bool :=
-  match e with
-  | ENum _ _ => true
-  | ECall _ n [_] =>
-      match call_name n with
-      | Some nm => String.eqb nm "int" || String.eqb nm "strlen"
-      | None => false
-      end
-  | EBin _ (OAdd | OSub | OMul | ODiv) l r => int_shaped l && int_shaped r
-  | _ => false
-  end.
-
 (* The core language, as a predicate on CHECKED trees:
    - no regular expressions (library oracle), no field access (dynamically typed), no IN over a
      list-valued function (element kinds are dynamic);
    - function calls: the conversion functions (the function bodies with fixed-type
-     parameters and the list / distance functions are not covered yet);
-   - = / != on numbers only between int-shaped operands (known finding
-     C14/float-equality-fails-at-execution: execEqual has no float case). *)
+     parameters and the list / distance functions are not covered yet).
+   = / != on numbers are covered for integer and float operands alike (the former known
+   finding C14/float-equality-fails-at-execution is repaired: execEqual compares numbers with
+   the rule of > >= < <=). *)
 Fixpoint core (e : expr) : bool :=
   match e with
   | EBin _ o l r =>
       match o with
       | ORegExpMatch | ONot => false
-      | OEq | ONotEq => negb (ty_eqb (rtype l) TNumber) || (int_shaped l && int_shaped r)
       | OIn => match r with EList _ _ => true | _ => false end
       | _ => true
       end && core l && core r
@@ -193,18 +180,6 @@ Qed.
 Lemma in_sites_between : forall p l r, In (EExec p) (sites (EBin p OBetween l r)).
 Proof. intros. cbn [sites]. left. reflexivity. Qed.
 
-Lemma int_shaped_number : forall e, int_shaped e = true -> rtype e = TNumber.
-Proof.
-  induction e; intros H; try discriminate H.
-  - destruct o; try discriminate H; cbn [int_shaped] in H; apply andb_true_iff in H; destruct H as [Hl _];
-      cbn [rtype]; try reflexivity.
-    rewrite (IHe1 Hl). reflexivity.
-  - destruct args as [|a [|]]; try discriminate H. cbn [int_shaped] in H. cbn [rtype].
-    destruct (call_name e) as [nm|]; [|discriminate].
-    apply orb_true_iff in H. destruct H as [H|H]; apply String.eqb_eq in H; subst nm; reflexivity.
-  - reflexivity.
-Qed.
-
 (* ---------------------------------------------------------------- one lemma per operator class *)
 Section Ops.
 Variables k v : bytes.
@@ -225,10 +200,6 @@ Proof.
 Qed.
 
 Notation ev := (Eval.eval fo re k v).
-
-(* a value that is certainly an int64 *)
-Definition intv (e : expr) : Prop :=
-  match ev e with Ok val => exists z, val = VInt z | _ => True end.
 
 Definition both (l r : expr) (f : value fo -> value fo -> res (value fo)) : res (value fo) :=
   do lv <- ev l; do rv <- ev r; f lv rv.
@@ -290,12 +261,19 @@ Proof.
   apply Hf; assumption.
 Qed.
 
+(* = on two values of the static type Number never fails, whatever mix of integer and float *)
+Lemma number_equality_total : forall (a b : value fo) (p : nat),
+  vty a TNumber = true -> vty b TNumber = true -> exists x, equal_values fo a b p = Ok x.
+Proof.
+  intros a b p Va Vb.
+  destruct a; try discriminate Va; destruct b; try discriminate Vb; eexists; reflexivity.
+Qed.
+
 Lemma dyn_eq : forall p o l r, (o = OEq \/ o = ONotEq) ->
   rtype l = rtype r -> is_scalar_ty (rtype l) = true ->
-  (rtype l <> TNumber \/ (intv l /\ intv r)) ->
   dyn_ok k v l -> dyn_ok k v r -> dyn_ok k v (EBin p o l r).
 Proof.
-  intros p o l r Ho Ht Hs Hint Dl Dr. unfold dyn_ok.
+  intros p o l r Ho Ht Hs Dl Dr. unfold dyn_ok.
   assert (Hrt : rtype (EBin p o l r) = TBool) by (destruct Ho as [ -> | -> ]; reflexivity). rewrite Hrt.
   assert (Hcore : forall neg : bool, match both l r (fun lv rv => do b <- equal_values fo lv rv p; Ok (VBool (if neg then negb b else b))) with
                   | Ok val => vty val TBool = true
@@ -303,14 +281,15 @@ Proof.
                   | Panic => False
                   | OutOfModel => True
                   end).
-  { intros neg. unfold both. unfold intv in Hint. unfold dyn_ok in Dl, Dr.
+  { intros neg. unfold both. unfold dyn_ok in Dl, Dr.
     destruct (ev l) as [lv|x| |]; cbn [bind]; [ | apply in_sites_l; exact Dl | contradiction | exact I].
     destruct (ev r) as [rv|x| |]; cbn [bind]; [ | apply in_sites_r; exact Dr | contradiction | exact I].
     rewrite <- Ht in Dr.
     destruct (rtype l); try discriminate Hs.
     - destruct lv; try discriminate Dl; destruct rv; try discriminate Dr; reflexivity.
     - destruct lv; try discriminate Dl; destruct rv; try discriminate Dr; reflexivity.
-    - destruct Hint as [Hn|[[zl Hl] [zr Hr]]]; [congruence|]. subst lv rv. reflexivity. }
+    - (* numbers: integer or float on either side *)
+      destruct lv; try discriminate Dl; destruct rv; try discriminate Dr; reflexivity. }
   destruct Ho as [ -> | -> ].
   - rewrite eval_eq. exact (Hcore false).
   - rewrite eval_neq. exact (Hcore true).
@@ -335,8 +314,7 @@ Qed.
 Lemma math_op_ok : forall lv rv o rpos, (o = OAdd \/ o = OSub \/ o = OMul \/ o = ODiv) ->
   vty lv TNumber = true -> vty rv TNumber = true ->
   match math_op fo lv rv o rpos with
-  | Ok val => vty val TNumber = true /\
-              ((exists a, lv = VInt a) -> (exists b, rv = VInt b) -> exists z, val = VInt z)
+  | Ok val => vty val TNumber = true
   | Err x => o = ODiv /\ x = EExec rpos
   | Panic => False
   | OutOfModel => True
@@ -345,33 +323,32 @@ Proof.
   intros lv rv o rpos Ho Vl Vr.
   destruct lv; try discriminate Vl; destruct rv; try discriminate Vr;
     destruct Ho as [ -> | [ -> | [ -> | -> ] ] ]; cbn;
-    try (split; [reflexivity | intros [a Ha] [b Hb]; discriminate]);
-    try (split; [reflexivity | intros; solve [eauto]]);
-    try (destruct (Z.eqb z0 0); [split; reflexivity | split; [reflexivity | intros; solve [eauto]]]);
+    try reflexivity;
+    try (destruct (Z.eqb z0 0); [split; reflexivity | reflexivity]);
     try (match goal with |- context [feqb fo ?a ?b] => destruct (feqb fo a b) end;
-         [split; reflexivity | split; [reflexivity | intros [a Ha] [b Hb]; discriminate]]).
+         [split; reflexivity | reflexivity]).
 Qed.
 
 Lemma dyn_arith : forall p o l r, (o = OAdd \/ o = OSub \/ o = OMul \/ o = ODiv) ->
   rtype l = TNumber -> rtype r = TNumber -> dyn_ok k v l -> dyn_ok k v r ->
-  dyn_ok k v (EBin p o l r) /\ (intv l -> intv r -> intv (EBin p o l r)).
+  dyn_ok k v (EBin p o l r).
 Proof.
   intros p o l r Ho Hl Hr Dl Dr.
   assert (Hev : ev (EBin p o l r) = both l r (fun lv rv => math_op fo lv rv o (epos r))).
   { destruct Ho as [ -> | Ho ]; [rewrite eval_add, Hl; reflexivity | apply eval_arith; exact Ho]. }
   assert (Hrt : rtype (EBin p o l r) = TNumber).
   { destruct Ho as [ -> | [ -> | [ -> | -> ] ] ]; cbn [rtype]; rewrite ?Hl; reflexivity. }
-  unfold dyn_ok at 1, intv. rewrite Hev, Hrt. unfold both, dyn_ok in *.
+  unfold dyn_ok at 1. rewrite Hev, Hrt. unfold both, dyn_ok in *.
   rewrite Hl in Dl. rewrite Hr in Dr.
   destruct (ev l) as [lv|x| |]; cbn [bind];
-    [ | split; [apply in_sites_l; exact Dl | trivial] | contradiction | split; trivial].
+    [ | apply in_sites_l; exact Dl | contradiction | exact I].
   destruct (ev r) as [rv|x| |]; cbn [bind];
-    [ | split; [apply in_sites_r; exact Dr | trivial] | contradiction | split; trivial].
+    [ | apply in_sites_r; exact Dr | contradiction | exact I].
   pose proof (math_op_ok lv rv o (epos r) Ho Dl Dr) as Hm.
   destruct (math_op fo lv rv o (epos r)) as [val|x| |]; try contradiction.
-  - destruct Hm as [Hv Hi]. split; [exact Hv | auto].
-  - destruct Hm as [-> ->]. split; [|trivial]. cbn [sites]. left. reflexivity.
-  - split; trivial.
+  - exact Hm.
+  - destruct Hm as [-> ->]. cbn [sites]. left. reflexivity.
+  - exact I.
 Qed.
 
 Lemma dyn_cmp : forall p o l r, (o = OGt \/ o = OGte \/ o = OLt \/ o = OLte) ->
@@ -517,33 +494,31 @@ Qed.
 
 Lemma dyn_call : forall p n a nm,
   call_name n = Some nm -> core_fn nm = true -> dyn_ok k v a ->
-  dyn_ok k v (ECall p n [a]) /\
-  ((nm = "int" \/ nm = "strlen") -> intv (ECall p n [a])).
+  dyn_ok k v (ECall p n [a]).
 Proof.
   intros p n a nm Hn Hc Da.
   destruct n; try discriminate Hn.
-  unfold dyn_ok at 1, intv. cbn [Eval.eval rtype sites flat_map]. rewrite Hn, app_nil_r.
+  unfold dyn_ok at 1. cbn [Eval.eval rtype sites flat_map]. rewrite Hn, app_nil_r.
   unfold dyn_ok in Da.
   apply core_fn_cases in Hc.
   destruct Hc as [->|[->|[->|[->|[->|[->|[->| ->]]]]]]]; cbn;
     (destruct (ev a) as [av|x| |]; cbn [bind];
-      [ | split; [exact Da | intros; trivial] | contradiction | split; trivial ]).
-  - destruct (ascii_upper (to_string fo av)); split; try reflexivity; try exact I; intros [H|H]; discriminate H.
-  - destruct (ascii_lower (to_string fo av)); split; try reflexivity; try exact I; intros [H|H]; discriminate H.
-  - split; [reflexivity | intros [H|H]; discriminate H].
+      [ | exact Da | contradiction | exact I ]).
+  - destruct (ascii_upper (to_string fo av)); try reflexivity; exact I.
+  - destruct (ascii_lower (to_string fo av)); try reflexivity; exact I.
+  - reflexivity.
   - pose proof (to_int_total av) as Ht. destruct (to_int fo av); cbn [bind]; try contradiction;
-      split; try reflexivity; try exact I; intros; eauto.
+      try reflexivity; exact I.
   - pose proof (to_float_total av) as Ht. destruct (to_float fo av); cbn [bind]; try contradiction;
-      split; try reflexivity; try exact I; intros [H|H]; discriminate H.
-  - split; [reflexivity | intros; eauto].
-  - destruct av; split; try reflexivity; try exact I; intros [H|H]; discriminate H.
-  - destruct av; try (split; [reflexivity | intros [H|H]; discriminate H]);
-      (destruct (f_parse fo _); split; try reflexivity; try exact I; intros [H|H]; discriminate H).
+      try reflexivity; exact I.
+  - reflexivity.
+  - destruct av; try reflexivity; exact I.
+  - destruct av; try reflexivity;
+      (destruct (f_parse fo _); try reflexivity; exact I).
 Qed.
 
 Definition safe_at (e : expr) : Prop :=
-  wt e = true -> core e = true -> refs_ok k v e ->
-  dyn_ok k v e /\ (int_shaped e = true -> intv e).
+  wt e = true -> core e = true -> refs_ok k v e -> dyn_ok k v e.
 
 Lemma safe_items : forall items, Forall safe_at items ->
   forallb wt items = true -> forallb core items = true -> refs_ok_list k v items ->
@@ -552,7 +527,7 @@ Proof.
   induction 1 as [|x l Hx _ IH]; intros Hw Hc Hr; [constructor|].
   cbn [forallb] in Hw, Hc. apply andb_true_iff in Hw. destruct Hw as [Hwx Hwl].
   apply andb_true_iff in Hc. destruct Hc as [Hcx Hcl]. cbn [refs_ok_list] in Hr. destruct Hr as [Hrx Hrl].
-  constructor; [exact (proj1 (Hx Hwx Hcx Hrx)) | exact (IH Hwl Hcl Hrl)].
+  constructor; [exact (Hx Hwx Hcx Hrx) | exact (IH Hwl Hcl Hrl)].
 Qed.
 
 Lemma eval_safe : forall e, safe_at e.
@@ -568,64 +543,49 @@ Proof.
     cbn [core] in Hc. apply andb_true_iff in Hc. destruct Hc as [Hc Hcr].
     apply andb_true_iff in Hc. destruct Hc as [Hco Hcl].
     cbn [refs_ok] in Hr. destruct Hr as [Hrl Hrr].
-    destruct (IHl Hwl Hcl Hrl) as [Dl Il].
+    pose proof (IHl Hwl Hcl Hrl) as Dl.
     destruct o; cbn [CheckerProofs.op_check] in Eop; try discriminate Eop; try discriminate Hco.
     + (* & *) apply check_andor_spec in Eop. destruct Eop as [Hl Hrt].
-      destruct (IHr Hwr Hcr Hrr) as [Dr _].
-      split; [apply dyn_andor; auto | intros H; discriminate H].
+      pose proof (IHr Hwr Hcr Hrr) as Dr. apply dyn_andor; auto.
     + apply check_andor_spec in Eop. destruct Eop as [Hl Hrt].
-      destruct (IHr Hwr Hcr Hrr) as [Dr _].
-      split; [apply dyn_andor; auto | intros H; discriminate H].
+      pose proof (IHr Hwr Hcr Hrr) as Dr. apply dyn_andor; auto.
     + (* = *) apply check_compares_spec in Eop; [|reflexivity]. destruct Eop as [_ [Ht Hcc]]. cbn [cmp_cond] in Hcc.
-      destruct (IHr Hwr Hcr Hrr) as [Dr Ir].
-      split; [|intros H; discriminate H]. apply dyn_eq; auto.
-      apply orb_true_iff in Hco. destruct Hco as [Hn|Hi].
-      * left. apply negb_true_iff, ty_eqb_neq in Hn. exact Hn.
-      * right. apply andb_true_iff in Hi. destruct Hi as [H1 H2]. auto.
+      pose proof (IHr Hwr Hcr Hrr) as Dr. apply dyn_eq; auto.
     + apply check_compares_spec in Eop; [|reflexivity]. destruct Eop as [_ [Ht Hcc]]. cbn [cmp_cond] in Hcc.
-      destruct (IHr Hwr Hcr Hrr) as [Dr Ir].
-      split; [|intros H; discriminate H]. apply dyn_eq; auto.
-      apply orb_true_iff in Hco. destruct Hco as [Hn|Hi].
-      * left. apply negb_true_iff, ty_eqb_neq in Hn. exact Hn.
-      * right. apply andb_true_iff in Hi. destruct Hi as [H1 H2]. auto.
+      pose proof (IHr Hwr Hcr Hrr) as Dr. apply dyn_eq; auto.
     + (* ^= *) apply check_compares_spec in Eop; [|reflexivity]. destruct Eop as [_ [Ht Hcc]]. cbn [cmp_cond] in Hcc.
-      apply ty_eqb_eq in Hcc. destruct (IHr Hwr Hcr Hrr) as [Dr _].
-      split; [apply dyn_prefix; congruence | intros H; discriminate H].
+      apply ty_eqb_eq in Hcc. pose proof (IHr Hwr Hcr Hrr) as Dr.
+      apply dyn_prefix; congruence.
     + (* + *) apply check_math_spec in Eop; [|reflexivity].
-      destruct (IHr Hwr Hcr Hrr) as [Dr Ir].
+      pose proof (IHr Hwr Hcr Hrr) as Dr.
       destruct Eop as [[[_ [Hl Hrt]]|[Hl Hrt]] _].
-      * split; [apply dyn_concat; auto|]. intros H. cbn [int_shaped] in H. apply andb_true_iff in H.
-        destruct H as [H _]. apply int_shaped_number in H. congruence.
-      * destruct (dyn_arith p OAdd e0_1 e0_2 (or_introl eq_refl) Hl Hrt Dl Dr) as [D I']. split; [exact D|].
-        intros H. cbn [int_shaped] in H. apply andb_true_iff in H. destruct H as [H1 H2]. auto.
+      * apply dyn_concat; auto.
+      * exact (dyn_arith p OAdd e0_1 e0_2 (or_introl eq_refl) Hl Hrt Dl Dr).
     + apply check_math_spec in Eop; [|reflexivity].
-      destruct (IHr Hwr Hcr Hrr) as [Dr Ir].
+      pose proof (IHr Hwr Hcr Hrr) as Dr.
       destruct Eop as [[[Ho _]|[Hl Hrt]] _]; [discriminate Ho|].
-      destruct (dyn_arith p OSub e0_1 e0_2 (or_intror (or_introl eq_refl)) Hl Hrt Dl Dr) as [D I']. split; [exact D|].
-      intros H. cbn [int_shaped] in H. apply andb_true_iff in H. destruct H as [H1 H2]. auto.
+      exact (dyn_arith p OSub e0_1 e0_2 (or_intror (or_introl eq_refl)) Hl Hrt Dl Dr).
     + apply check_math_spec in Eop; [|reflexivity].
-      destruct (IHr Hwr Hcr Hrr) as [Dr Ir].
+      pose proof (IHr Hwr Hcr Hrr) as Dr.
       destruct Eop as [[[Ho _]|[Hl Hrt]] _]; [discriminate Ho|].
-      destruct (dyn_arith p OMul e0_1 e0_2 (or_intror (or_intror (or_introl eq_refl))) Hl Hrt Dl Dr) as [D I']. split; [exact D|].
-      intros H. cbn [int_shaped] in H. apply andb_true_iff in H. destruct H as [H1 H2]. auto.
+      exact (dyn_arith p OMul e0_1 e0_2 (or_intror (or_intror (or_introl eq_refl))) Hl Hrt Dl Dr).
     + apply check_math_spec in Eop; [|reflexivity].
-      destruct (IHr Hwr Hcr Hrr) as [Dr Ir].
+      pose proof (IHr Hwr Hcr Hrr) as Dr.
       destruct Eop as [[[Ho _]|[Hl Hrt]] _]; [discriminate Ho|].
-      destruct (dyn_arith p ODiv e0_1 e0_2 (or_intror (or_intror (or_intror eq_refl))) Hl Hrt Dl Dr) as [D I']. split; [exact D|].
-      intros H. cbn [int_shaped] in H. apply andb_true_iff in H. destruct H as [H1 H2]. auto.
+      exact (dyn_arith p ODiv e0_1 e0_2 (or_intror (or_intror (or_intror eq_refl))) Hl Hrt Dl Dr).
     + (* > *) apply check_compares_spec in Eop; [|reflexivity]. destruct Eop as [_ [Ht Hcc]]. cbn [cmp_cond] in Hcc.
-      destruct (IHr Hwr Hcr Hrr) as [Dr _]. split; [apply dyn_cmp; auto | intros H; discriminate H].
+      pose proof (IHr Hwr Hcr Hrr) as Dr. apply dyn_cmp; auto.
     + apply check_compares_spec in Eop; [|reflexivity]. destruct Eop as [_ [Ht Hcc]]. cbn [cmp_cond] in Hcc.
-      destruct (IHr Hwr Hcr Hrr) as [Dr _]. split; [apply dyn_cmp; auto 6 | intros H; discriminate H].
+      pose proof (IHr Hwr Hcr Hrr) as Dr. apply dyn_cmp; auto 6.
     + apply check_compares_spec in Eop; [|reflexivity]. destruct Eop as [_ [Ht Hcc]]. cbn [cmp_cond] in Hcc.
-      destruct (IHr Hwr Hcr Hrr) as [Dr _]. split; [apply dyn_cmp; auto 6 | intros H; discriminate H].
+      pose proof (IHr Hwr Hcr Hrr) as Dr. apply dyn_cmp; auto 6.
     + apply check_compares_spec in Eop; [|reflexivity]. destruct Eop as [_ [Ht Hcc]]. cbn [cmp_cond] in Hcc.
-      destruct (IHr Hwr Hcr Hrr) as [Dr _]. split; [apply dyn_cmp; auto 6 | intros H; discriminate H].
+      pose proof (IHr Hwr Hcr Hrr) as Dr. apply dyn_cmp; auto 6.
     + (* in *) destruct e0_2; try discriminate Hco.
       apply check_in_spec in Eop. destruct Eop as [Hs Hfm]. apply first_mistyped_none in Hfm.
       cbn [wt] in Hwr. apply andb_true_iff in Hwr. destruct Hwr as [Hwi _]. cbn [core] in Hcr.
       rewrite refs_ok_elist in Hrr.
-      split; [|intros H; discriminate H]. apply dyn_in_list; auto. exact (safe_items _ IHrx Hwi Hcr Hrr).
+      apply dyn_in_list; auto. exact (safe_items _ IHrx Hwi Hcr Hrr).
     + (* between *) unfold check_between in Eop.
       destruct e0_2; try discriminate Eop. destruct l as [|lo [|hi [|]]]; try discriminate Eop.
       destruct (is_strnum_ty (rtype e0_1)) eqn:Hs; cbn [negb] in Eop; [|discriminate].
@@ -635,22 +595,19 @@ Proof.
       rewrite refs_ok_elist in Hrr.
       pose proof (safe_items _ IHrx Hwi Hcr Hrr) as Hd.
       inversion Hd as [|? ? Dlo Hd']; subst. inversion Hd' as [|? ? Dhi _]; subst.
-      split; [|intros H; discriminate H]. apply dyn_between; auto.
+      apply dyn_between; auto.
     + (* and *) apply check_andor_spec in Eop. destruct Eop as [Hl Hrt].
-      destruct (IHr Hwr Hcr Hrr) as [Dr _].
-      split; [apply dyn_andor; auto | intros H; discriminate H].
+      pose proof (IHr Hwr Hcr Hrr) as Dr. apply dyn_andor; auto.
     + apply check_andor_spec in Eop. destruct Eop as [Hl Hrt].
-      destruct (IHr Hwr Hcr Hrr) as [Dr _].
-      split; [apply dyn_andor; auto 6 | intros H; discriminate H].
+      pose proof (IHr Hwr Hcr Hrr) as Dr. apply dyn_andor; auto 6.
   - (* EField *)
-    split; [|exact I]. intros _ _ _. split; [|intros H; discriminate H].
-    unfold dyn_ok. destruct f; reflexivity.
-  - split; [|exact I]. intros _ _ _. split; [reflexivity | intros H; discriminate H].
+    split; [|exact I]. intros _ _ _. unfold dyn_ok. destruct f; reflexivity.
+  - split; [|exact I]. intros _ _ _. reflexivity.
   - (* ENot *)
     split; [|exact I]. destruct IHe0 as [IHr _]. intros Hw Hc Hr.
     cbn [wt] in Hw. apply andb_true_iff in Hw. destruct Hw as [Hwr Hb]. apply ty_eqb_eq in Hb.
-    cbn [core] in Hc. cbn [refs_ok] in Hr. destruct (IHr Hwr Hc Hr) as [Dr _].
-    split; [apply dyn_not; auto | intros H; discriminate H].
+    cbn [core] in Hc. cbn [refs_ok] in Hr. pose proof (IHr Hwr Hc Hr) as Dr.
+    apply dyn_not; auto.
   - (* ECall *)
     split; [|exact I]. clear IHe0. intros Hw Hc Hr.
     cbn [core] in Hc. apply andb_true_iff in Hc. destruct Hc as [Hc Hca].
@@ -660,22 +617,20 @@ Proof.
     cbn [wt] in Hw. rewrite refs_ok_call in Hr.
     assert (HS : Forall safe_at [a]) by (eapply Forall_impl; [|exact H]; intros x [Hx _]; exact Hx).
     pose proof (safe_items _ HS Hw Hca Hr) as Hd. inversion Hd as [|? ? Da _]; subst.
-    destruct (dyn_call p e0 a nm En Hcn Da) as [D I']. split; [exact D|].
-    intros Hi. cbn [int_shaped] in Hi. rewrite En in Hi. apply I'.
-    apply orb_true_iff in Hi. destruct Hi as [Hi|Hi]; apply String.eqb_eq in Hi; auto.
+    exact (dyn_call p e0 a nm En Hcn Da).
   - (* EName *)
-    split; [|exact I]. intros _ _ _. split; [reflexivity | intros H; discriminate H].
+    split; [|exact I]. intros _ _ _. reflexivity.
   - (* ERef *)
-    split; [|exact I]. intros _ _ Hr. cbn [refs_ok] in Hr. split; [exact Hr | intros H; discriminate H].
+    split; [|exact I]. intros _ _ Hr. cbn [refs_ok] in Hr. exact Hr.
   - (* ENum *)
-    split; [|exact I]. intros _ _ _. split; [reflexivity|]. intros _. unfold intv. cbn. eauto.
+    split; [|exact I]. intros _ _ _. reflexivity.
   - (* EFloat *)
-    split; [|exact I]. intros _ _ _. split; [|intros H; discriminate H].
+    split; [|exact I]. intros _ _ _.
     unfold dyn_ok. cbn [Eval.eval rtype]. unfold float_value. destruct (f_parse fo d); reflexivity.
-  - split; [|exact I]. intros _ _ _. split; [reflexivity | intros H; discriminate H].
+  - split; [|exact I]. intros _ _ _. reflexivity.
   - (* EList *)
     assert (HS : Forall safe_at l) by (eapply Forall_impl; [|exact H]; intros x [Hx _]; exact Hx).
-    split; [|exact HS]. intros _ _ _. split; [reflexivity | intros H0; discriminate H0].
+    split; [|exact HS]. intros _ _ _. reflexivity.
   - (* EAccess *)
     split; [|exact I]. intros _ Hc. discriminate Hc.
 Qed.
